@@ -4,6 +4,9 @@ C07 — the way a resource is supplied does not change what gets stored.
 -/
 import WnVerif.Model.Project
 import WnVerif.Model.Add
+import WnVerif.Props.C01
+import WnVerif.Lemmas.FrameG
+import WnVerif.Lemmas.ForIn
 namespace WnVerif.Props.C07
 open WnVerif.Project
 
@@ -68,5 +71,231 @@ theorem C07_ext_skipped (db : Db.Db) (l : Doc.Lexicon) (b : Doc.Dep) (hb : l.ext
 theorem C07_all_skipped_noop (norm : String → String) (rank : Nat) (db : Db.Db) (l : Doc.Lexicon)
     (h : Db.skip db l = true) : Db.addResource norm rank db ⟨"1.1", [l]⟩ = .ok db := by
   simp [Db.addResource, h, Doc.Lexicon.spec, forIn, List.forIn_cons, List.forIn_nil, bind, Except.bind, pure, Except.pure]
+
+section OneFileOrMany
+open WnVerif WnVerif.Db WnVerif.Doc WnVerif.Props.C01
+
+
+/-! ### one file with several lexicons ≡ the same lexicons supplied one resource at a time -/
+
+/-- the lexicons table after one add: the old rows and one row carrying the document's id and version -/
+theorem addLexicon_lexrow (norm : String → String) (dr : Nat) (db db' : Db) (l : Lexicon)
+    (h : addLexicon norm dr db l = .ok db') :
+    ∃ lrow : RLexicon, db'.lexicons = db.lexicons ++ [lrow] ∧ lrow.id = l.id ∧ lrow.version = l.version := by
+  obtain ⟨t⟩ := addLexicon_split norm dr db db' l h
+  obtain ⟨hL1, _, _⟩ := C01_lexicon_row _ _ _ _ _ t.hlex
+  let c : Ctx := ⟨t.lexid, t.extid, externalIds l⟩
+  let π : Db → List RLexicon := fun b => b.lexicons
+  have k2 : π t.d2 = π t.d1 := keepsGF_insertSynsets π l c (fun p => by keepsG_step presupStep)
+    (by keepsG_step synsetStep) (by keepsG_step piliStep) _ _ t.hsyn
+  have k3 : π t.d3 = π t.d2 := keepsGF_insertEntries π l c (by keepsG_step entryStep) _ _ t.hent
+  have k4 : π t.d4 = π t.d3 := keepsGF_insertForms π (fun _ _ => rfl) norm l c _ _ t.hform
+  have k5 : π t.d5 = π t.d4 := keepsGF_insertPronsTags π l c (fun _ _ _ => by keepsG_step pronStep)
+    (fun _ _ _ => by keepsG_step tagStep) _ _ t.hpt
+  have k6 : π t.d6 = π t.d5 := keepsGF_insertSenses π l c dr (fun _ => by keepsG_step senseStep)
+    (by keepsG_step adjStep) (fun _ => by keepsG_step countStep) _ _ t.hsen
+  have k7 : π t.d7 = π t.d6 := keepsGF_insertSbs π t.sbs c (by keepsG_step sbStep) (fun _ => by keepsG_step sbSenseStep) _ _ t.hsb
+  have k8 : π t.d8 = π t.d7 := keepsGF_insertRelations π l c (fun _ => by keepsG_step synRelStep)
+    (by keepsG_step senseRelStep) (by keepsG_step senseSynRelStep) _ _ t.hrel
+  have k9 : π db' = π t.d8 := keepsGF_insertDefsExamples π l c (fun _ => by keepsG_step defStep)
+    (fun _ => by keepsG_step senseExampleStep) (fun _ => by keepsG_step synsetExampleStep) _ _ t.hdx
+  refine ⟨⟨t.lexid, l.id, l.label, l.language, l.email, l.license, l.version, l.url, l.citation, l.logo, l.md⟩, ?_, rfl, rfl⟩
+  show π db' = _
+  rw [k9, k8, k7, k6, k5, k4, k3, k2]
+  exact hL1
+
+/-- adding a lexicon with another (id, version) does not change whether a given (id, version) is installed -/
+theorem lexiconRow_isSome_frame (db db' : Db) (lrow : RLexicon) (hL : db'.lexicons = db.lexicons ++ [lrow])
+    (id version : String) (hne : ¬ (lrow.id = id ∧ lrow.version = version)) :
+    (lexiconRow db' id version).isSome = (lexiconRow db id version).isSome := by
+  unfold lexiconRow
+  rw [hL, List.find?_append]
+  have : [lrow].find? (fun r => r.id == id && r.version == version) = none := by
+    simp only [List.find?_cons, List.find?_nil]
+    have : (lrow.id == id && lrow.version == version) = false := by
+      cases hb : (lrow.id == id && lrow.version == version) with
+      | false => rfl
+      | true => simp only [Bool.and_eq_true, beq_iff_eq] at hb; exact absurd hb hne
+    rw [this]
+  rw [this]
+  cases db.lexicons.find? (fun r => r.id == id && r.version == version) <;> simp
+
+
+/-- the skip decision the up-front `skipmap` dict holds for a lexicon of the resource -/
+def skOf (db : Db) (ls : List Lexicon) (l : Lexicon) : Bool :=
+  ((((ls.map (fun l => (l.spec, skip db l))).filter (fun e => e.1 == l.spec)).getLast?).map (·.2)).getD false
+
+theorem forIn_skip_fold (norm : String → String) (rank : Nat) (sk : Lexicon → Bool) :
+    ∀ (xs : List Lexicon) (cur : Db),
+    (do let s ← forIn xs cur (fun l s =>
+            if sk l = true then pure (ForInStep.yield s)
+            else do
+              let c ← addLexicon norm rank s l
+              pure (ForInStep.yield c))
+        pure s : R Db) =
+    xs.foldlM (fun cur l => if sk l then pure cur else addLexicon norm rank cur l) cur := by
+  intro xs
+  induction xs with
+  | nil => intro cur; rfl
+  | cons a t ih =>
+    intro cur
+    simp only [List.forIn_cons, List.foldlM_cons]
+    cases hs : sk a with
+    | true =>
+      simp only [if_true, pure_bind]
+      exact ih cur
+    | false =>
+      simp only [Bool.false_eq_true, if_false, bind_assoc, pure_bind]
+      cases hadd : addLexicon norm rank cur a with
+      | error e => rfl
+      | ok c =>
+        simp only [bind, Except.bind]
+        exact ih c
+
+theorem addResource_eq_fold (norm : String → String) (rank : Nat) (db : Db) (v : String) (ls : List Lexicon) :
+    addResource norm rank db ⟨v, ls⟩ =
+      ls.foldlM (fun cur l => if skOf db ls l then pure cur else addLexicon norm rank cur l) db := by
+  unfold addResource
+  simp only [bind_pure]
+  exact forIn_skip_fold norm rank (skOf db ls) ls db
+
+theorem skip_frame (cur c : Db) (lrow : RLexicon) (hL : c.lexicons = cur.lexicons ++ [lrow]) (l : Lexicon)
+    (h1 : ¬ (lrow.id = l.id ∧ lrow.version = l.version))
+    (h2 : ∀ b, l.ext = some b → ¬ (lrow.id = b.id ∧ lrow.version = b.version)) :
+    skip c l = skip cur l := by
+  unfold skip
+  rw [lexiconRow_isSome_frame cur c lrow hL l.id l.version h1]
+  cases hb : l.ext with
+  | none => rfl
+  | some b =>
+    have := lexiconRow_isSome_frame cur c lrow hL b.id b.version (h2 b hb)
+    have e : (lexiconRow c b.id b.version).isNone = (lexiconRow cur b.id b.version).isNone := by
+      cases h1 : lexiconRow c b.id b.version <;> cases h2 : lexiconRow cur b.id b.version <;> simp [h1, h2] at this ⊢
+    simp only [e]
+
+theorem fold_skip_now (norm : String → String) (rank : Nat) (sk0 : Lexicon → Bool) :
+    ∀ (xs : List Lexicon) (cur : Db),
+      xs.Pairwise (fun a b => ¬ (a.id = b.id ∧ a.version = b.version)) →
+      (∀ l ∈ xs, ∀ b, l.ext = some b → ∀ l' ∈ xs, ¬ (l'.id = b.id ∧ l'.version = b.version)) →
+      (∀ l ∈ xs, skip cur l = sk0 l) →
+      xs.foldlM (fun cur l => if sk0 l then pure cur else addLexicon norm rank cur l) cur =
+        xs.foldlM (fun cur l => if skip cur l then pure cur else addLexicon norm rank cur l) cur := by
+  intro xs
+  induction xs with
+  | nil => intro cur _ _ _; rfl
+  | cons a t ih =>
+    intro cur hp hb hinv
+    have hp' := List.pairwise_cons.mp hp
+    have hbt : ∀ l ∈ t, ∀ b, l.ext = some b → ∀ l' ∈ t, ¬ (l'.id = b.id ∧ l'.version = b.version) :=
+      fun l hl b hlb l' hl' => hb l (List.mem_cons_of_mem _ hl) b hlb l' (List.mem_cons_of_mem _ hl')
+    simp only [List.foldlM_cons]
+    rw [hinv a (List.mem_cons_self ..)]
+    cases hs : sk0 a with
+    | true =>
+      simp only [if_true, pure_bind]
+      exact ih cur hp'.2 hbt (fun l hl => hinv l (List.mem_cons_of_mem _ hl))
+    | false =>
+      simp only [Bool.false_eq_true, if_false]
+      cases hadd : addLexicon norm rank cur a with
+      | error e => rfl
+      | ok c =>
+        simp only [bind, Except.bind]
+        obtain ⟨lrow, hL, hid, hver⟩ := addLexicon_lexrow norm rank cur c a hadd
+        apply ih c hp'.2 hbt
+        intro l hl
+        rw [← hinv l (List.mem_cons_of_mem _ hl)]
+        apply skip_frame cur c lrow hL l
+        · rw [hid, hver]; exact hp'.1 l hl
+        · intro b hlb
+          rw [hid, hver]
+          exact hb l (List.mem_cons_of_mem _ hl) b hlb a (List.mem_cons_self ..)
+
+theorem skOf_eq (db : Db) : ∀ (ls : List Lexicon), (ls.map (·.spec)).Nodup → ∀ l ∈ ls, skOf db ls l = skip db l := by
+  intro ls hn l hl
+  unfold skOf
+  have : (ls.map (fun l => (l.spec, skip db l))).filter (fun e => e.1 == l.spec) = [(l.spec, skip db l)] := by
+    induction ls with
+    | nil => simp at hl
+    | cons a t ih =>
+      simp only [List.map_cons, List.nodup_cons, List.mem_map, not_exists, not_and] at hn
+      rcases List.mem_cons.mp hl with e | hl'
+      · subst e
+        simp only [List.map_cons, List.filter_cons, beq_self_eq_true, if_true]
+        congr 1
+        rw [List.filter_eq_nil_iff]
+        intro x hx
+        obtain ⟨y, hy, rfl⟩ := List.mem_map.mp hx
+        simp only [beq_iff_eq]
+        intro e
+        exact hn.1 y hy e
+      · have hne : (a.spec == l.spec) = false := by
+          cases hb : a.spec == l.spec with
+          | false => rfl
+          | true => exact absurd (by simpa using hb : a.spec = l.spec).symm (hn.1 l hl')
+        simp only [List.map_cons, List.filter_cons, hne, Bool.false_eq_true, if_false]
+        exact ih hn.2 hl'
+  rw [this]
+  rfl
+
+theorem addResource_single (norm : String → String) (rank : Nat) (d : Db) (v : String) (l : Lexicon) :
+    addResource norm rank d ⟨v, [l]⟩ = if skip d l then pure d else addLexicon norm rank d l := by
+  rw [addResource_eq_fold]
+  have : skOf d [l] l = skip d l := by simp [skOf]
+  simp only [List.foldlM_cons, List.foldlM_nil, this]
+  cases skip d l with
+  | true => rfl
+  | false =>
+    simp only [Bool.false_eq_true, if_false]
+    cases addLexicon norm rank d l <;> rfl
+
+theorem spec_eq_of_pair (a b : Lexicon) (h : a.id = b.id ∧ a.version = b.version) : a.spec = b.spec := by
+  unfold Lexicon.spec; rw [h.1, h.2]
+
+/-- **C07, one file or many**: a resource holding several lexicons with distinct specifiers, none of
+which extends another lexicon of the same resource ("mutually independent"), stores exactly what
+supplying the same lexicons one resource at a time, in the same order, stores — including which of
+them are skipped and including the failing case (the same error at the same lexicon) — on any database. -/
+theorem C07_one_file_or_many (norm : String → String) (rank : Nat) (db : Db) (v : String) (ls : List Lexicon)
+    (hd : (ls.map (·.spec)).Nodup)
+    (hind : ∀ l ∈ ls, ∀ b, l.ext = some b → ∀ l' ∈ ls, ¬ (l'.id = b.id ∧ l'.version = b.version)) :
+    addResource norm rank db ⟨v, ls⟩ = ls.foldlM (fun d l => addResource norm rank d ⟨v, [l]⟩) db := by
+  rw [addResource_eq_fold]
+  have hp : ls.Pairwise (fun a b => ¬ (a.id = b.id ∧ a.version = b.version)) := by
+    have := List.pairwise_map.mp hd
+    exact this.imp (fun hne h => hne (spec_eq_of_pair _ _ h))
+  rw [fold_skip_now norm rank (skOf db ls) ls db hp hind (fun l hl => (skOf_eq db ls hd l hl).symm)]
+  congr 1
+  funext d l
+  exact (addResource_single norm rank d v l).symm
+
+/-! non-vacuity: two independent lexicons meet the hypotheses and both get installed either way;
+and the independence hypothesis is essential: a base and its extension shipped in one file store
+*less* than the two supplied one after the other (the extension is skipped by the up-front precheck) -/
+def lexA : Lexicon :=
+  { id := "a", version := "1", label := "A", language := "en", email := "e", license := "l",
+    synsets := [{ id := "a-1", pos := some "n" }] }
+def lexB : Lexicon := { id := "b", version := "1", label := "B", language := "en", email := "e", license := "l" }
+def lexX : Lexicon :=
+  { id := "x", version := "1", label := "X", language := "en", email := "e", license := "l",
+    ext := some { id := "a", version := "1" } }
+
+example : (([lexA, lexB].map (·.spec)).Nodup ∧
+    ∀ l ∈ [lexA, lexB], ∀ b, l.ext = some b → ∀ l' ∈ [lexA, lexB], ¬ (l'.id = b.id ∧ l'.version = b.version)) ∧
+    (match addResource (fun s => s) 127 Db.empty ⟨"1.1", [lexA, lexB]⟩ with
+     | .ok d => d.lexicons.map (·.id) | .error _ => []) = ["a", "b"] := by
+  refine ⟨⟨by decide, ?_⟩, by decide +kernel⟩
+  intro l hl b hb
+  simp only [List.mem_cons, List.not_mem_nil, or_false] at hl
+  rcases hl with rfl | rfl <;> simp [lexA, lexB] at hb
+
+theorem C07_base_and_extension_in_one_file_counterexample :
+    (match addResource (fun s => s) 127 Db.empty ⟨"1.1", [lexA, lexX]⟩ with
+     | .ok d => d.lexicons.map (·.id) | .error _ => []) = ["a"] ∧
+    (match [lexA, lexX].foldlM (fun d l => addResource (fun s => s) 127 d ⟨"1.1", [l]⟩) Db.empty with
+     | .ok d => d.lexicons.map (·.id) | .error _ => []) = ["a", "x"] := by
+  constructor <;> decide +kernel
+
+
+end OneFileOrMany
 
 end WnVerif.Props.C07
